@@ -207,6 +207,11 @@ def main():
     counts, miss = gen_c04_tables.generate(REPO)
     vals.update(counts)      # SUBSTREAM_ERRORKINDS_MASK, EK_*, ...
     missing += list(miss)
+    # C12: select!/poll orders, error mapping and forget() sites of the notification code -> coq/gen/C12Tables.v
+    import gen_c12_tables
+    counts, miss = gen_c12_tables.generate(REPO)
+    vals.update(counts)      # C12_TABLE_ITEMS
+    missing += list(miss)
     str_names = []
     for name, path, rx in STR_CONSTS:
         try:
